@@ -1039,6 +1039,20 @@ protected:
       req.path = httpReq.uri;
       req.headers = httpReq.headers;
       req.body = httpReq.body;
+      // A chunked request body reaches the handler decoded (the framing in
+      // handleIncomingData has already validated it), not as raw chunk syntax.
+      {
+        auto te = httpReq.headers.find("Transfer-Encoding");
+        if (te != httpReq.headers.end() && transferEncodingFinalIsChunked(te->second))
+        {
+          std::string decoded;
+          const std::size_t end = findChunkedRequestEnd(httpReq.body, 0, &decoded);
+          if (end != std::string::npos && end != kChunkedInvalid)
+          {
+            req.body = std::move(decoded);
+          }
+        }
+      }
 
       // Populate peer address information
       {
